@@ -60,7 +60,7 @@ func TestC12(t *testing.T) {
 		}
 		// short lists, arbitrary 64-bit values
 		gaps := []uint64{0, 1, 2, 126, 127, 128, 129, 16383, 16384, 16385, 1<<21 - 1, 1 << 21, 1<<28 - 1, 1 << 28, 1<<32 - 1, 1 << 32, 1<<32 + 1, 1 << 35, 1 << 42, 1 << 49, 1 << 56, 1 << 62}
-		for i := 0; i < vt.Pick(1500, 20000); i++ {
+		for i := 0; i < vt.Pick(1500, 12000); i++ {
 			n := rnd.Intn(9)
 			if rnd.Intn(6) == 0 {
 				n = rnd.Intn(40)
